@@ -50,6 +50,21 @@ def parseEq (j : Json) : R EinEq := do
   let o ← jNatArr (← fld j "out")
   return ⟨a.toList, b.toList, o.toList⟩
 
+/-- subscripts as numbers: character codes, `0` for the ellipsis -/
+def parseToks (j : Json) : R (List Tok) := do
+  let a ← jNatArr j
+  return a.toList.map (fun n => if n = 0 then Tok.ell else Tok.lab n)
+
+/-- `{a, b, out}` with `out` absent / null for an implicit-output equation -/
+def parseRawEq (j : Json) : R RawEq := do
+  let a ← parseToks (← fld j "a")
+  let b ← parseToks (← fld j "b")
+  let o ← (match fldOpt j "out" with
+    | some .null => pure none
+    | some oj => do return some (← parseToks oj)
+    | none => pure none : R (Option (List Tok)))
+  return ⟨a, b, o⟩
+
 section ring
 variable [Add α] [Mul α] [Neg α] [Sub α] [Zero α] [One α]
 
@@ -97,10 +112,10 @@ def ringOp (c : Codec α) (fn : String) (j : Json) : Option (R Json) :=
   | "inner_prod" => some do return resOut c (innerProd (← X) (← Y))
   | "outer_prod" => some do return resOut c (outerProd (← X) (← Y))
   | "einsum" => some do
-    let eq ← parseEq (← fld j "eq")
+    let raw ← parseRawEq (← fld j "eq")
     let rp ← jBool (← fld j "real_part")
     let ip ← jBool (← fld j "imag_part")
-    match einsum eq (← X) (← Y) rp ip with
+    match einsumS raw (← X) (← Y) rp ip with
     | .ok (.cplx t) => return Json.mkObj [("kind", .str "cplx"), ("t", tensorOut c t)]
     | .ok (.re t) => return Json.mkObj [("kind", .str "real"), ("t", tensorOut c t)]
     | .ok .none => return Json.mkObj [("kind", .str "none")]
